@@ -116,3 +116,160 @@ Example C01_hypotheses_satisfiable :
   (length U = length P + 3 + 1)%nat /\ (3 < length P)%nat /\ (kn Qops U 3 <= 3#10)%Q /\ (3#10 < kn Qops U (length P))%Q /\
   length (curve_point Qops 2 3 U P (3#10)) = 2%nat.
 Proof. cbv zeta. repeat split; try (vm_compute; congruence); try (cbn; lia). Qed.
+
+(* ====================== TRANSLATOR TIE (Proofs/GenTie*.v) ======================
+   coq/Gen/*.v is the Gallina rendering of the Python source produced by harness/pytrans.py; every run of ./check regenerates it
+   from /repo and compares it function by function with the committed text (evidence: translator_tie).  The theorems below say
+   that the hand-written model (the subject of the theorems above) computes, for ALL inputs satisfying the stated
+   well-formedness, exactly what the translated source computes.  This block stays LAST in the file: its imports shadow
+   model names. *)
+From Coq Require Import List QArith Reals Qreals Lia Lra Arith Bool ZArith.
+From NV Require Import Scalar.Ops Model.Common Model.Basis Model.Knots Model.KnotIns Model.KnotRem Model.LinAlg Model.Degree
+  Gen.Prelude Gen.LinalgInternal Gen.Linalg Gen.Knotvector Gen.Helpers
+  Proofs.GenTieSums Proofs.GenTieLinAlg Proofs.GenTieSubst Proofs.GenTieLU Proofs.GenTieLUSolve Proofs.GenTieKnotRem Proofs.GenTieDegree
+  Proofs.GenTieLib Proofs.GenTieKnots Proofs.GenTieSpan Proofs.GenTieBasis Proofs.GenTieBasisOne
+  Proofs.GenTieDersOne Proofs.GenTieDersLib Proofs.GenTieDers Proofs.GenTieKnotIns.
+Local Open Scope nat_scope.
+From NV Require Import Gen.PreludeExt Gen.LinalgMat Proofs.GenTieMat Proofs.GenTieMatSolve Proofs.GenTieBinom.
+From NV Require Import Gen.PreludeExt Gen.HelpersB Proofs.GenTieKnotRemove.
+From NV Require Import Gen.HelpersB Proofs.GenTieElev.
+From NV Require Import Model.Geom2D Model.Voxel Gen.PreludeExt Gen.LinalgGeom Gen.Voxelize Proofs.GenTieGeom Proofs.GenTieVoxel
+  Proofs.GenTieHull.
+From NV Require Import Model.Hull Gen.Utilities Proofs.GenTieBBox.
+From NV Require Import Model.Fit Gen.Fitting Proofs.GenTieFit.
+From NV Require Import Model.Derivs Proofs.GenTieDerivCpts.
+From NV Require Import Proofs.GenTieArr4 Proofs.GenTieDerivSurf.
+From NV Require Import Model.KnotRefine Proofs.GenTieRefine.
+
+From NV Require Import Model.Eval Gen.Evaluators Proofs.GenTieEvalLib Proofs.GenTieEvalCurve Proofs.GenTieEvalSurf Proofs.GenTieEvalVol.
+
+(* [G] CurveEvaluator.evaluate (A3.1 on linspace(start, stop, sample_size)) with the default find_span_func *)
+Theorem C01_gen_CurveEvaluator_evaluate_R : forall (dd : geomdata R) (p : nat) (U : list R) (P : list (list R)) (n : Z) (start stop : R),
+  curve_dd dd p U P -> hd_error (geomdata_sample_size dd) = Some n ->
+  p < length P -> length P + p <= length U ->
+  Evaluators.CurveEvaluator_evaluate Rops (Helpers.find_span_linear Rops) dd start stop =
+  GOk (curve_evalpts Rops (lit_10e_8 Rops) (Z.to_nat (eval_dim dd)) p U P start stop (Z.to_nat n)).
+Proof. exact CurveEvaluator_evaluate_tie_R. Qed.
+Print Assumptions C01_gen_CurveEvaluator_evaluate_R.
+Theorem C01_gen_CurveEvaluator_evaluate_Q : forall (dd : geomdata Q) (p : nat) (U : list Q) (P : list (list Q)) (n : Z) (start stop : Q),
+  curve_dd dd p U P -> hd_error (geomdata_sample_size dd) = Some n ->
+  p < length P -> length P + p <= length U ->
+  Evaluators.CurveEvaluator_evaluate Qops (Helpers.find_span_linear Qops) dd start stop =
+  GOk (curve_evalpts Qops (lit_10e_8 Qops) (Z.to_nat (eval_dim dd)) p U P start stop (Z.to_nat n)).
+Proof. exact CurveEvaluator_evaluate_tie_Q. Qed.
+Print Assumptions C01_gen_CurveEvaluator_evaluate_Q.
+
+(* [G] CurveEvaluatorRational.evaluate: the weighted points divided by their last coordinate *)
+Theorem C01_gen_CurveEvaluatorRational_evaluate_R : forall (dd : geomdata R) (p : nat) (U : list R) (P : list (list R)) (n : Z) (start stop : R),
+  curve_dd dd p U P -> hd_error (geomdata_sample_size dd) = Some n ->
+  p < length P -> length P + p <= length U ->
+  (1 <= eval_dim dd)%Z -> (forall pt, In pt P -> Z.of_nat (length pt) = eval_dim dd) ->
+  Evaluators.CurveEvaluatorRational_evaluate Rops (Helpers.find_span_linear Rops) dd start stop =
+  GOk (map (project Rops) (curve_evalpts Rops (lit_10e_8 Rops) (Z.to_nat (eval_dim dd)) p U P start stop (Z.to_nat n))).
+Proof. exact CurveEvaluatorRational_evaluate_tie_R. Qed.
+Print Assumptions C01_gen_CurveEvaluatorRational_evaluate_R.
+Theorem C01_gen_CurveEvaluatorRational_evaluate_Q : forall (dd : geomdata Q) (p : nat) (U : list Q) (P : list (list Q)) (n : Z) (start stop : Q),
+  curve_dd dd p U P -> hd_error (geomdata_sample_size dd) = Some n ->
+  p < length P -> length P + p <= length U ->
+  (1 <= eval_dim dd)%Z -> (forall pt, In pt P -> Z.of_nat (length pt) = eval_dim dd) ->
+  Evaluators.CurveEvaluatorRational_evaluate Qops (Helpers.find_span_linear Qops) dd start stop =
+  GOk (map (project Qops) (curve_evalpts Qops (lit_10e_8 Qops) (Z.to_nat (eval_dim dd)) p U P start stop (Z.to_nat n))).
+Proof. exact CurveEvaluatorRational_evaluate_tie_Q. Qed.
+Print Assumptions C01_gen_CurveEvaluatorRational_evaluate_Q.
+
+(* [G] SurfaceEvaluator.evaluate (A3.5 on the grid linspace x linspace, u outermost) *)
+Theorem C01_gen_SurfaceEvaluator_evaluate_R : forall (dd : geomdata R) (pu pv : nat) (Uu Uv : list R) (su sv : nat) (P : list (list R))
+    (nu nv : Z) (s0 s1 t0 t1 : R),
+  surf_dd dd pu pv Uu Uv su sv P nu nv ->
+  pu < su -> su + pu <= length Uu -> pv < sv -> sv + pv <= length Uv -> su * sv <= length P ->
+  Evaluators.SurfaceEvaluator_evaluate Rops (Helpers.find_span_linear Rops) dd [s0; t0] [s1; t1] =
+  GOk (surface_evalpts Rops (lit_10e_8 Rops) (Z.to_nat (eval_dim dd)) pu pv Uu Uv su sv P s0 s1 t0 t1 (Z.to_nat nu) (Z.to_nat nv)).
+Proof. exact SurfaceEvaluator_evaluate_tie_R. Qed.
+Print Assumptions C01_gen_SurfaceEvaluator_evaluate_R.
+
+(* [G] SurfaceEvaluator.evaluate (A3.5 on the grid linspace x linspace, u outermost) *)
+Theorem C01_gen_SurfaceEvaluator_evaluate_Q : forall (dd : geomdata Q) (pu pv : nat) (Uu Uv : list Q) (su sv : nat) (P : list (list Q))
+    (nu nv : Z) (s0 s1 t0 t1 : Q),
+  surf_dd dd pu pv Uu Uv su sv P nu nv ->
+  pu < su -> su + pu <= length Uu -> pv < sv -> sv + pv <= length Uv -> su * sv <= length P ->
+  Evaluators.SurfaceEvaluator_evaluate Qops (Helpers.find_span_linear Qops) dd [s0; t0] [s1; t1] =
+  GOk (surface_evalpts Qops (lit_10e_8 Qops) (Z.to_nat (eval_dim dd)) pu pv Uu Uv su sv P s0 s1 t0 t1 (Z.to_nat nu) (Z.to_nat nv)).
+Proof. exact SurfaceEvaluator_evaluate_tie_Q. Qed.
+Print Assumptions C01_gen_SurfaceEvaluator_evaluate_Q.
+
+(* [G] SurfaceEvaluatorRational.evaluate *)
+Theorem C01_gen_SurfaceEvaluatorRational_evaluate_R : forall (dd : geomdata R) (pu pv : nat) (Uu Uv : list R) (su sv : nat) (P : list (list R))
+    (nu nv : Z) (s0 s1 t0 t1 : R),
+  surf_dd dd pu pv Uu Uv su sv P nu nv ->
+  pu < su -> su + pu <= length Uu -> pv < sv -> sv + pv <= length Uv -> su * sv <= length P ->
+  (1 <= eval_dim dd)%Z -> (forall pt, In pt P -> Z.of_nat (length pt) = eval_dim dd) ->
+  Evaluators.SurfaceEvaluatorRational_evaluate Rops (Helpers.find_span_linear Rops) dd [s0; t0] [s1; t1] =
+  GOk (map (project Rops)
+        (surface_evalpts Rops (lit_10e_8 Rops) (Z.to_nat (eval_dim dd)) pu pv Uu Uv su sv P s0 s1 t0 t1 (Z.to_nat nu) (Z.to_nat nv))).
+Proof. exact SurfaceEvaluatorRational_evaluate_tie_R. Qed.
+Print Assumptions C01_gen_SurfaceEvaluatorRational_evaluate_R.
+
+(* [G] SurfaceEvaluatorRational.evaluate *)
+Theorem C01_gen_SurfaceEvaluatorRational_evaluate_Q : forall (dd : geomdata Q) (pu pv : nat) (Uu Uv : list Q) (su sv : nat) (P : list (list Q))
+    (nu nv : Z) (s0 s1 t0 t1 : Q),
+  surf_dd dd pu pv Uu Uv su sv P nu nv ->
+  pu < su -> su + pu <= length Uu -> pv < sv -> sv + pv <= length Uv -> su * sv <= length P ->
+  (1 <= eval_dim dd)%Z -> (forall pt, In pt P -> Z.of_nat (length pt) = eval_dim dd) ->
+  Evaluators.SurfaceEvaluatorRational_evaluate Qops (Helpers.find_span_linear Qops) dd [s0; t0] [s1; t1] =
+  GOk (map (project Qops)
+        (surface_evalpts Qops (lit_10e_8 Qops) (Z.to_nat (eval_dim dd)) pu pv Uu Uv su sv P s0 s1 t0 t1 (Z.to_nat nu) (Z.to_nat nv))).
+Proof. exact SurfaceEvaluatorRational_evaluate_tie_Q. Qed.
+Print Assumptions C01_gen_SurfaceEvaluatorRational_evaluate_Q.
+
+(* [G] VolumeEvaluator.evaluate (control points flat: v fastest, then u, then w) *)
+Theorem C01_gen_VolumeEvaluator_evaluate_R : forall (dd : geomdata R) (pu pv pw : nat) (Uu Uv Uw : list R) (su sv sw : nat)
+    (P : list (list R)) (nu nv nw : Z) (a0 a1 b0 b1 c0 c1 : R),
+  vol_dd dd pu pv pw Uu Uv Uw su sv sw P nu nv nw ->
+  pu < su -> su + pu <= length Uu -> pv < sv -> sv + pv <= length Uv -> pw < sw -> sw + pw <= length Uw ->
+  su * sv * sw <= length P ->
+  Evaluators.VolumeEvaluator_evaluate Rops (Helpers.find_span_linear Rops) dd [a0; b0; c0] [a1; b1; c1] =
+  GOk (volume_evalpts Rops (lit_10e_8 Rops) (Z.to_nat (eval_dim dd)) pu pv pw Uu Uv Uw su sv sw P a0 a1 b0 b1 c0 c1
+         (Z.to_nat nu) (Z.to_nat nv) (Z.to_nat nw)).
+Proof. exact VolumeEvaluator_evaluate_tie_R. Qed.
+Print Assumptions C01_gen_VolumeEvaluator_evaluate_R.
+
+(* [G] VolumeEvaluator.evaluate (control points flat: v fastest, then u, then w) *)
+Theorem C01_gen_VolumeEvaluator_evaluate_Q : forall (dd : geomdata Q) (pu pv pw : nat) (Uu Uv Uw : list Q) (su sv sw : nat)
+    (P : list (list Q)) (nu nv nw : Z) (a0 a1 b0 b1 c0 c1 : Q),
+  vol_dd dd pu pv pw Uu Uv Uw su sv sw P nu nv nw ->
+  pu < su -> su + pu <= length Uu -> pv < sv -> sv + pv <= length Uv -> pw < sw -> sw + pw <= length Uw ->
+  su * sv * sw <= length P ->
+  Evaluators.VolumeEvaluator_evaluate Qops (Helpers.find_span_linear Qops) dd [a0; b0; c0] [a1; b1; c1] =
+  GOk (volume_evalpts Qops (lit_10e_8 Qops) (Z.to_nat (eval_dim dd)) pu pv pw Uu Uv Uw su sv sw P a0 a1 b0 b1 c0 c1
+         (Z.to_nat nu) (Z.to_nat nv) (Z.to_nat nw)).
+Proof. exact VolumeEvaluator_evaluate_tie_Q. Qed.
+Print Assumptions C01_gen_VolumeEvaluator_evaluate_Q.
+
+(* [G] VolumeEvaluatorRational.evaluate *)
+Theorem C01_gen_VolumeEvaluatorRational_evaluate_R : forall (dd : geomdata R) (pu pv pw : nat) (Uu Uv Uw : list R) (su sv sw : nat)
+    (P : list (list R)) (nu nv nw : Z) (a0 a1 b0 b1 c0 c1 : R),
+  vol_dd dd pu pv pw Uu Uv Uw su sv sw P nu nv nw ->
+  pu < su -> su + pu <= length Uu -> pv < sv -> sv + pv <= length Uv -> pw < sw -> sw + pw <= length Uw ->
+  su * sv * sw <= length P ->
+  (1 <= eval_dim dd)%Z -> (forall pt, In pt P -> Z.of_nat (length pt) = eval_dim dd) ->
+  Evaluators.VolumeEvaluatorRational_evaluate Rops (Helpers.find_span_linear Rops) dd [a0; b0; c0] [a1; b1; c1] =
+  GOk (map (project Rops)
+        (volume_evalpts Rops (lit_10e_8 Rops) (Z.to_nat (eval_dim dd)) pu pv pw Uu Uv Uw su sv sw P a0 a1 b0 b1 c0 c1
+           (Z.to_nat nu) (Z.to_nat nv) (Z.to_nat nw))).
+Proof. exact VolumeEvaluatorRational_evaluate_tie_R. Qed.
+Print Assumptions C01_gen_VolumeEvaluatorRational_evaluate_R.
+
+(* [G] VolumeEvaluatorRational.evaluate *)
+Theorem C01_gen_VolumeEvaluatorRational_evaluate_Q : forall (dd : geomdata Q) (pu pv pw : nat) (Uu Uv Uw : list Q) (su sv sw : nat)
+    (P : list (list Q)) (nu nv nw : Z) (a0 a1 b0 b1 c0 c1 : Q),
+  vol_dd dd pu pv pw Uu Uv Uw su sv sw P nu nv nw ->
+  pu < su -> su + pu <= length Uu -> pv < sv -> sv + pv <= length Uv -> pw < sw -> sw + pw <= length Uw ->
+  su * sv * sw <= length P ->
+  (1 <= eval_dim dd)%Z -> (forall pt, In pt P -> Z.of_nat (length pt) = eval_dim dd) ->
+  Evaluators.VolumeEvaluatorRational_evaluate Qops (Helpers.find_span_linear Qops) dd [a0; b0; c0] [a1; b1; c1] =
+  GOk (map (project Qops)
+        (volume_evalpts Qops (lit_10e_8 Qops) (Z.to_nat (eval_dim dd)) pu pv pw Uu Uv Uw su sv sw P a0 a1 b0 b1 c0 c1
+           (Z.to_nat nu) (Z.to_nat nv) (Z.to_nat nw))).
+Proof. exact VolumeEvaluatorRational_evaluate_tie_Q. Qed.
+Print Assumptions C01_gen_VolumeEvaluatorRational_evaluate_Q.
+
